@@ -1,10 +1,157 @@
-//! C20 differentials that need the quantizer and MIDI models
+//! C20 differentials that need the quantizer and MIDI models: note numbers above 11 act as 11, channels above 15 as 15
+use crate::p_midi::stream_case_structured;
+use crate::p_quant::quant_case;
 use crate::runner::*;
 use serde_json::Value;
+use synth_utils::mono_midi_receiver::MonoMidiReceiver;
+use synth_utils::quantizer::{Note, Quantizer};
 use vcore::common::*;
+use vcore::midi::{observe, StreamCase};
+use vcore::quant::{QuantCase, QuantOp};
 
-pub fn replay(engine: &str, _case: &Value) -> Result<(), Failure> {
-    Err(Failure::new("replay_unknown_engine", 0, format!("no replay handler for engine {}", engine)))
+/// same history, once with the raw note numbers and once with min(n,11): identical is_allowed answers and conversions
+pub fn quant_twin(case: &QuantCase, st: &mut Stats) -> Result<bool, Failure> {
+    let mut a = Quantizer::new();
+    let mut b = Quantizer::new();
+    let mut big = false;
+    let mut last_v = 0.0f32;
+    for (step, op) in case.ops.iter().enumerate() {
+        let mut inputs: Vec<f32> = vec![];
+        match op {
+            QuantOp::Allow(l) | QuantOp::Forbid(l) | QuantOp::ForbidLast(l) => {
+                if l.iter().any(|n| *n > 11) {
+                    big = true;
+                }
+                let raw: Vec<Note> = l.iter().map(|n| Note::from(*n)).collect();
+                let cl: Vec<Note> = l.iter().map(|n| Note::from((*n).min(11))).collect();
+                if matches!(op, QuantOp::Allow(_)) {
+                    a.allow(&raw);
+                    b.allow(&cl);
+                } else {
+                    a.forbid(&raw);
+                    b.forbid(&cl);
+                }
+            }
+            QuantOp::Convert(v) => inputs.push(*v),
+            QuantOp::ConvertSame => inputs.push(last_v),
+            QuantOp::ConvertNudge(d) => inputs.push(last_v + d),
+            QuantOp::Ramp { start, step, n } => {
+                for i in 0..(*n).min(6) {
+                    inputs.push(start + step * i as f32)
+                }
+            }
+            QuantOp::Noise { .. } => {}
+        }
+        for n in 0..=255u8 {
+            let x = a.is_allowed(Note::from(n));
+            let y = b.is_allowed(Note::from(n.min(11)));
+            if x != y {
+                return Err(Failure::new(
+                    "C20.note_acts_as_11",
+                    step,
+                    format!("after {:?}: is_allowed({}) = {} on the raw history, is_allowed({}) = {} on the clamped history", op, n, x, n.min(11), y),
+                ));
+            }
+        }
+        for v in inputs {
+            let (x, y) = (a.convert(v), b.convert(v));
+            if x.note_num != y.note_num {
+                return Err(Failure::new("C20.note_acts_as_11", step, format!("convert({}) = {} on the raw history, {} on the clamped history", v, x.note_num, y.note_num)));
+            }
+            last_v = v;
+        }
+    }
+    st.count("quant_twin_histories", 1);
+    Ok(big)
 }
 
-pub fn extend(_o: &mut Outcome, _quick: bool, _seed: u64) {}
+/// new(c) behaves as new(min(c,15)): all getters after every byte
+pub fn midi_twin(case: &StreamCase, st: &mut Stats) -> Result<bool, Failure> {
+    let mut a = MonoMidiReceiver::new(case.channel);
+    let mut b = MonoMidiReceiver::new(case.channel.min(15));
+    for (i, &x) in case.bytes.iter().enumerate() {
+        a.parse(x);
+        b.parse(x);
+        if observe(&a) != observe(&b) {
+            return Err(Failure::new(
+                "C20.channel_acts_as_15",
+                i,
+                format!("MonoMidiReceiver::new({}) and new({}) differ after byte {} ({:#04x})", case.channel, case.channel.min(15), i, x),
+            ));
+        }
+        if case.poll_mask >> (i % 64) & 1 == 1 && (a.rising_gate() != b.rising_gate() || a.falling_gate() != b.falling_gate()) {
+            return Err(Failure::new("C20.channel_acts_as_15", i, format!("edge getters of new({}) and new({}) differ after byte {}", case.channel, case.channel.min(15), i)));
+        }
+    }
+    st.count("midi_twin_streams", 1);
+    Ok(case.channel > 15)
+}
+
+pub fn replay(engine: &str, case: &Value) -> Result<(), Failure> {
+    let mut st = Stats::default();
+    let dec = |e: serde_json::Error| Failure::new("replay_decode", 0, e.to_string());
+    match engine {
+        "c20_quant_twin" => quant_twin(&serde_json::from_value(case.clone()).map_err(dec)?, &mut st).map(|_| ()),
+        "c20_midi_twin" => midi_twin(&serde_json::from_value(case.clone()).map_err(dec)?, &mut st).map(|_| ()),
+        "c20_channels" => all_channels(&mut st),
+        _ => Err(Failure::new("replay_unknown_engine", 0, format!("no replay handler for engine {}", engine))),
+    }
+}
+
+/// all 256 channel arguments: a note-on on channel min(c,15) is heard, on the next channel it is not
+fn all_channels(st: &mut Stats) -> Result<(), Failure> {
+    for c in 0..=255u8 {
+        let e = c.min(15);
+        for other in 0..16u8 {
+            let mut r = MonoMidiReceiver::new(c);
+            r.parse(0x90 | other);
+            r.parse(61);
+            r.parse(100);
+            let heard = r.gate() && r.note_num() == 61;
+            if heard != (other == e) {
+                return Err(Failure::new("C20.channel_clamp", c as usize, format!("MonoMidiReceiver::new({}): note-on on channel {} heard = {}, expected {}", c, other, heard, other == e)));
+            }
+        }
+        st.count("u8_channel_values", 1);
+        if c > 15 {
+            st.count("u8_channel_values_above_15", 1);
+        }
+    }
+    Ok(())
+}
+
+pub fn extend(o: &mut Outcome, quick: bool, seed: u64) {
+    let part = par_chunks("c20_channels", 1, 1, |_, _, st| {
+        all_channels(st).map_err(|f| (serde_json::json!({"channel": f.step}), f))?;
+        st.count("sweep_evaluations", 256);
+        Ok(())
+    });
+    o.absorb(part);
+    let cases = if quick { 6_000 } else { 200_000 };
+    let part = pt_run("c20_quant_twin", quant_case, cases, seed, 201, 4000, |c, st| quant_twin(c, st));
+    o.absorb(part);
+    let part = pt_run(
+        "c20_midi_twin",
+        || {
+            use proptest::prelude::*;
+            (stream_case_structured(), 0u8..=255).prop_map(|(mut c, ch)| {
+                // re-target the stream at the clamped channel so that it is actually heard
+                let old = c.channel.min(15);
+                let new = ch.min(15);
+                for b in c.bytes.iter_mut() {
+                    if *b >= 0x80 && *b < 0xF0 && (*b & 0x0F) == old {
+                        *b = (*b & 0xF0) | new;
+                    }
+                }
+                c.channel = ch;
+                c
+            })
+        },
+        cases,
+        seed,
+        202,
+        4000,
+        |c, st| midi_twin(c, st),
+    );
+    o.absorb(part);
+}
